@@ -3,6 +3,10 @@ import Pyunicorn.Lemmas.LineDistSeq
 import Pyunicorn.Lemmas.LineDistResample
 import Pyunicorn.Lemmas.LineDistRound
 import Pyunicorn.Lemmas.LineDistEntropy
+import Pyunicorn.Lemmas.LineDistRnd64
+import Pyunicorn.Lemmas.LineDistMethods
+import Pyunicorn.Lemmas.LineDistLoops
+import Pyunicorn.Lemmas.LineDistOverflow
 /-!
 # C08 — RQA line statistics are exact run-length counts of the matrix
 
@@ -936,6 +940,520 @@ example : (xOps rndCeil).lt (StructC08.metric_supremum (xOps rndCeil) 0 1 1
       (fun a _ => .fin (if a = 0 then 0 else 1/2))) (.fin 1) = true := by decide +kernel
 
 end Doubles
+
+/-! ## Round 5 — the binary64 rounding the driver executes: no hypothesis on the rounding is left
+
+`rnd64` (`Model/LineDistFloat.lean`) is round-to-nearest-even on 53 bits with gradual underflow.
+Round 4's theorems were stated for "every rounding with `rnd 0 = 0`" / "every *monotone* rounding
+that fixes the threshold" and the monotonicity of the rounding actually executed was an assumption.
+Here it is a theorem, and the inclusion "recurrent in doubles ⇒ recurrent exactly" is lifted from
+finite samples to every embedding (NaN, infinities) and to the stored matrix. -/
+section Binary64
+open Pyunicorn.Generated
+
+/-- **binary64 rounding is monotone** (across exponent boundaries and into the subnormal range) -/
+theorem rnd64_monotone : MonoRnd rnd64 := rnd64_mono
+
+/-- it fixes every non-negative double: normal, subnormal, zero (`m · 2^e`, `|m| < 2^53`,
+`e ≥ -1074`), and its value is always on the double grid (a multiple of `2^-1074`) -/
+theorem rnd64_fixes_doubles (f : Rat) (hf : IsF64 f) (h0 : 0 ≤ f) : rnd64 f = f := rnd64_fix f hf h0
+theorem rnd64_value_on_grid (x : Rat) : OnGrid (rnd64 x) := rnd64_onGrid x
+
+/-- **`rnd64` is IEEE round-to-nearest, ties to even**: its value is a double
+(`rnd64_is_double`), no double is closer to the argument (`rnd64_is_nearest`), and on a tie the
+even significand is taken (`rnd64_ties_to_even`).  Together with monotonicity and the fixed points
+this is the specification of the binary64 rounding of `|a - b|` — a theorem about the function
+the driver executes, not a reading of its definition (overflow to `inf` excepted: not modelled). -/
+theorem rnd64_is_double (q : Rat) : IsF64 (rnd64 q) := rnd64_isF64 q
+theorem rnd64_is_nearest (q : Rat) (hq : 0 < q) (f : Rat) (hf : IsF64 f) :
+    |rnd64 q - q| ≤ |f - q| := rnd64_nearest q hq f hf
+theorem rnd64_ties_to_even (q : Rat) (hq : 0 < q)
+    (h : q / Visibility.pow2 (e64 q) - ((q / Visibility.pow2 (e64 q)).floor : Rat) = 1 / 2) :
+    rnd64 q = ((Visibility.roundEven (q / Visibility.pow2 (e64 q)) : Int) : Rat)
+        * Visibility.pow2 (e64 q) ∧
+      Visibility.roundEven (q / Visibility.pow2 (e64 q)) % 2 = 0 :=
+  ⟨rnd64_pos q hq, rnd64_tie_even q hq h⟩
+
+/-- **gradual underflow is invisible to the kernels**: on the difference `|a - b|` of any two
+doubles the rounding with the exponent clamp is C09's unclamped `rn53` (the model of rounds 3–4);
+a difference of doubles below `2^-1022` is exact. -/
+theorem rnd64_eq_rn53_on_differences (a b : Rat) (ha : IsF64 a) (hb : IsF64 b) :
+    rnd64 (adiff a b) = Similarity.rn53 (adiff a b) :=
+  rnd64_eq_rn53_grid _ (isF64_sub_grid a b ha hb)
+
+/-- … and in the normal range (`2^-1022 ≤ x`) the two roundings are the same function of any
+rational -/
+theorem rnd64_eq_rn53_normal_range (x : Rat) (h : -1022 ≤ Visibility.lg x) :
+    rnd64 x = Similarity.rn53 x := rnd64_eq_rn53_normal x (Or.inr h)
+
+/-- **binary64 never invents a recurrence** — the predicate, any samples: for every embedding whose
+samples are finite, `±inf` or NaN and every threshold that is a double (negative ones included),
+`inf` or NaN: a pair recurrent with the differences rounded to binary64 is recurrent with exact
+differences.  (`round_subset` of round 4 without its two hypotheses and without "finite".) -/
+theorem binary64_subset_exact (I j dim : Int) (E : Int → Int → X) (eps : X)
+    (heps : ∀ t, eps = .fin t → IsF64 t)
+    (h : (xOps rnd64).lt (StructC08.metric_supremum (xOps rnd64) I j dim E) eps = true) :
+    (xOps id).lt (StructC08.metric_supremum (xOps id) I j dim E) eps = true :=
+  lt_of_accRel rnd64 _ _ (metric_accRel rnd64 rnd64_mono I j dim E) eps (fixedEps_rnd64 eps heps) h
+
+/-- with `threshold = inf` (or NaN) rounding changes nothing at all -/
+theorem binary64_inf_threshold_exact (I j dim : Int) (E : Int → Int → X) (eps : X)
+    (heps : ∀ t, eps ≠ .fin t) :
+    (xOps rnd64).lt (StructC08.metric_supremum (xOps rnd64) I j dim E) eps
+      = (xOps id).lt (StructC08.metric_supremum (xOps id) I j dim E) eps :=
+  lt_inf_of_accRel rnd64 _ _ (metric_accRel rnd64 rnd64_mono I j dim E) eps heps
+
+/-- **the matrix stored by `set_fixed_threshold` in doubles is contained in the exact one**, cell
+by cell, `missing_values` on or off, every embedding, every double / `inf` / NaN threshold -/
+theorem binary64_matrix_subset_exact (emb : List (List X)) (eps : X)
+    (heps : ∀ t, eps = .fin t → IsF64 t) (dim : Nat) (mv : Bool) (I j : Nat)
+    (h : Mat.at (fixedThresholdX rnd64 emb eps dim mv) I j = true) :
+    Mat.at (fixedThresholdX id emb eps dim mv) I j = true :=
+  fixedThresholdX_subset rnd64 rnd64_mono emb eps (fixedEps_rnd64 eps heps) dim mv I j h
+
+/-- where every coordinate difference is a double (float32-born samples at most 29 binades apart,
+the dyadic data of the correspondence) binary64 decides every pair exactly -/
+theorem binary64_exact_of_representable (I j dim : Int) (e : Int → Int → Rat)
+    (hex : ∀ l : Nat, l < dim.toNat → IsF64 (adiff (e I l) (e j l))) (t : Rat) :
+    (xOps rnd64).lt (StructC08.metric_supremum (xOps rnd64) I j dim (fun a b => .fin (e a b)))
+        (.fin t)
+      = (xOps id).lt (StructC08.metric_supremum (xOps id) I j dim (fun a b => .fin (e a b)))
+          (.fin t) := by
+  apply round_exact
+  intro l hl
+  apply rnd64_fix _ (hex l hl)
+  unfold adiff
+  split <;> linarith
+
+/-- **sequential = matrix mode in binary64**, no hypothesis: the four generated sequential kernels
+at the rounding the driver executes are the generated matrix kernels on the stored matrix, hence
+run-length counts of it -/
+theorem seq64_vertline_eq_matrix (emb : List (List X)) (eps : X) (dim : Nat) :
+    StructC08._vertline_dist_sequential (xOps rnd64) emb.length (List.replicate emb.length 0)
+        (accX emb) eps dim
+      = StructC08._vertline_dist emb.length (List.replicate emb.length 0)
+          (accR (fixedThresholdX rnd64 emb eps dim false)) :=
+  seqX_vertline_eq_matrix rnd64 rnd64_zero emb eps dim
+
+theorem seq64_diagline_eq_matrix (emb : List (List X)) (eps : X) (dim : Nat) :
+    StructC08._diagline_dist_sequential (xOps rnd64) emb.length (List.replicate emb.length 0)
+        (accX emb) eps dim
+      = StructC08._diagline_dist emb.length (List.replicate emb.length 0)
+          (accR (fixedThresholdX rnd64 emb eps dim false)) :=
+  seqX_diagline_eq_matrix rnd64 rnd64_zero emb eps dim
+
+theorem seq64_vertline_runs (emb : List (List X)) (eps : X) (dim : Nat) :
+    StructC08._vertline_dist_sequential (xOps rnd64) emb.length (List.replicate emb.length 0)
+        (accX emb) eps dim
+      = histOfRuns (rowsOf (fixedThresholdX rnd64 emb eps dim false) true emb.length) emb.length :=
+  seqX_vertline_runs rnd64 rnd64_zero emb eps dim
+
+theorem seq64_diagline_runs (emb : List (List X)) (eps : X) (dim : Nat) :
+    StructC08._diagline_dist_sequential (xOps rnd64) emb.length (List.replicate emb.length 0)
+        (accX emb) eps dim
+      = histOfRuns (diagsOf (fixedThresholdX rnd64 emb eps dim false) emb.length) emb.length :=
+  seqX_diagline_runs rnd64 rnd64_zero emb eps dim
+
+/-! non-vacuity and properness: `1` and `2^-54` are doubles; their difference `1 - 2^-54` is a tie
+between `1 - 2^-53` and `1` and rounds to the even `1`, so with the threshold `1` the pair is
+recurrent exactly but not in binary64 (the inclusion is proper, in the direction proved);
+`1/10` is not a double and is moved; subnormal multiples of `2^-1074` are fixed. -/
+example : IsF64 1 ∧ IsF64 (3 / 2) := ⟨⟨1, 0, by decide, by decide, by simp [Visibility.pow2]⟩,
+  ⟨3, -1, by decide, by decide, by norm_num [Visibility.pow2]⟩⟩
+example : rnd64 (1 - 1 / 2 ^ 54) = 1 ∧ rnd64 (1 - 1 / 2 ^ 53) = 1 - 1 / 2 ^ 53 ∧
+    rnd64 (1 / 10) ≠ 1 / 10 ∧ rnd64 (3 / 2 ^ 1074) = 3 / 2 ^ 1074 ∧ rnd64 (3 / 2 ^ 1075) = 2 / 2 ^ 1074 ∧
+    Similarity.rn53 (3 / 2 ^ 1075) = 3 / 2 ^ 1075 := by decide +kernel
+example : (xOps rnd64).lt (StructC08.metric_supremum (xOps rnd64) 0 1 1
+      (fun a _ => .fin (if a = 0 then 1 else 1 / 2 ^ 54))) (.fin 1) = false ∧
+    (xOps id).lt (StructC08.metric_supremum (xOps id) 0 1 1
+      (fun a _ => .fin (if a = 0 then 1 else 1 / 2 ^ 54))) (.fin 1) = true := by decide +kernel
+
+end Binary64
+
+/-! ## Round 5 — the public methods as wholes: every storage mode, missing values on and off
+
+`Model/LineDistMethods.lean` models `diagline_dist()`, `vertline_dist()`, `white_vertline_dist()`
+and `recurrence_rate()` of a fixed-threshold / supremum `RecurrencePlot` with their Python layer
+(dispatch on `sparse_rqa` and `missing_values`, the `np.array_equal(recmat, recmat.T)` test and the
+doubling, the NaN-free sub-embedding of the repaired `recurrence_rate`).  The theorems hold for
+every rounding with `rnd 0 = 0` (so for exact arithmetic `id` and for `rnd64`), every embedding of
+finite / infinite / NaN samples, every threshold and size. -/
+section Methods
+open Pyunicorn.Generated
+
+/-- the matrix of a fixed threshold passes `np.array_equal(recmat, recmat.T)`: the second-triangle
+branch of `diagline_dist()` is never taken for it -/
+theorem fixed_threshold_matrix_symmetric (rnd : Rat → Rat) (emb : List (List X)) (eps : X)
+    (dim : Nat) (mv : Bool) (n : Nat) :
+    symmetricB (fixedThresholdX rnd emb eps dim mv) n = true :=
+  fixedThresholdX_symmetricB rnd emb eps dim mv n
+
+/-- **`diagline_dist()`: the memory-saving mode returns what the matrix mode returns**, with and
+without `missing_values` (doubling included) -/
+theorem diagline_method_sparse_eq_matrix (rnd : Rat → Rat) (h0 : rnd 0 = 0) (emb : List (List X))
+    (eps : X) (dim : Nat) (mv : Bool) :
+    diaglineMethod rnd ⟨emb, eps, dim, mv, true⟩ = diaglineMethod rnd ⟨emb, eps, dim, mv, false⟩ := by
+  cases mv <;>
+    simp [diaglineMethod, diagKernelOn, RP.R, RP.M, zeroHist, fixedThresholdX_symmetricB,
+      seqX_diagline_eq_matrix rnd h0, seqX_diagline_mv_eq_matrix rnd h0]
+
+/-- **`vertline_dist()`: the same in both storage modes** -/
+theorem vertline_method_sparse_eq_matrix (rnd : Rat → Rat) (h0 : rnd 0 = 0) (emb : List (List X))
+    (eps : X) (dim : Nat) (mv : Bool) :
+    vertlineMethod rnd ⟨emb, eps, dim, mv, true⟩ = vertlineMethod rnd ⟨emb, eps, dim, mv, false⟩ := by
+  cases mv <;>
+    simp [vertlineMethod, RP.R, RP.M, zeroHist, seqX_vertline_eq_matrix rnd h0,
+      seqX_vertline_mv_eq_matrix rnd h0]
+
+/-- **`diagline_dist()` is twice the run-length count of the sub-diagonals of the stored matrix**
+(= the count over all diagonals off the main one, the matrix being symmetric), in both modes -/
+theorem diagline_method_eq_runs (rnd : Rat → Rat) (h0 : rnd 0 = 0) (emb : List (List X)) (eps : X)
+    (dim : Nat) (sparse : Bool) :
+    diaglineMethod rnd ⟨emb, eps, dim, false, sparse⟩
+      = (histOfRuns (diagsOf (fixedThresholdX rnd emb eps dim false) emb.length) emb.length).map
+          (2 * ·) := by
+  cases sparse
+  · simp [diaglineMethod, diagKernelOn, RP.R, zeroHist, fixedThresholdX_symmetricB,
+      gen_diagline_runs]
+  · rw [diagline_method_sparse_eq_matrix rnd h0]
+    simp [diaglineMethod, diagKernelOn, RP.R, zeroHist, fixedThresholdX_symmetricB,
+      gen_diagline_runs]
+
+/-- … with `missing_values`: twice the count of the specification `runsMV` (lines containing,
+directly following or directly followed by a cell of an incomplete state vector are dropped) -/
+theorem diagline_method_mv_eq_runs (rnd : Rat → Rat) (h0 : rnd 0 = 0) (emb : List (List X))
+    (eps : X) (dim : Nat) (sparse : Bool) :
+    diaglineMethod rnd ⟨emb, eps, dim, true, sparse⟩
+      = ((((diagCoords emb.length).map
+            (cellsOf (fixedThresholdX rnd emb eps dim true) (missingMaskX emb) true)).flatMap
+            runsMV).foldl bump (List.replicate emb.length 0)).map (2 * ·) := by
+  cases sparse
+  · simp [diaglineMethod, diagKernelOn, RP.R, RP.M, zeroHist, fixedThresholdX_symmetricB,
+      gen_diagline_mv_eq, diag_mv_eq_runs]
+  · rw [diagline_method_sparse_eq_matrix rnd h0]
+    simp [diaglineMethod, diagKernelOn, RP.R, RP.M, zeroHist, fixedThresholdX_symmetricB,
+      gen_diagline_mv_eq, diag_mv_eq_runs]
+
+/-- **`vertline_dist()` is the run-length count of the rows of the stored matrix**, both modes -/
+theorem vertline_method_eq_runs (rnd : Rat → Rat) (h0 : rnd 0 = 0) (emb : List (List X)) (eps : X)
+    (dim : Nat) (sparse : Bool) :
+    vertlineMethod rnd ⟨emb, eps, dim, false, sparse⟩
+      = histOfRuns (rowsOf (fixedThresholdX rnd emb eps dim false) true emb.length) emb.length := by
+  cases sparse
+  · simp [vertlineMethod, RP.R, zeroHist, gen_vertline_runs]
+  · rw [vertline_method_sparse_eq_matrix rnd h0]
+    simp [vertlineMethod, RP.R, zeroHist, gen_vertline_runs]
+
+theorem vertline_method_mv_eq_runs (rnd : Rat → Rat) (h0 : rnd 0 = 0) (emb : List (List X))
+    (eps : X) (dim : Nat) (sparse : Bool) :
+    vertlineMethod rnd ⟨emb, eps, dim, true, sparse⟩
+      = (((vertCoords emb.length).map
+            (cellsOf (fixedThresholdX rnd emb eps dim true) (missingMaskX emb) true)).flatMap
+            runsMV).foldl bump (List.replicate emb.length 0) := by
+  cases sparse
+  · simp [vertlineMethod, RP.R, RP.M, zeroHist, gen_vertline_mv_eq, vert_mv_eq_runs]
+  · rw [vertline_method_sparse_eq_matrix rnd h0]
+    simp [vertlineMethod, RP.R, RP.M, zeroHist, gen_vertline_mv_eq, vert_mv_eq_runs]
+
+/-- `white_vertline_dist()`: run-length count of the non-recurrence points of the rows in matrix
+mode; `NotImplementedError` in sequential mode -/
+theorem white_method_eq_runs (rnd : Rat → Rat) (emb : List (List X)) (eps : X) (dim : Nat)
+    (mv : Bool) :
+    whiteVertlineMethod rnd ⟨emb, eps, dim, mv, false⟩
+        = some (histOfRuns (rowsOf (fixedThresholdX rnd emb eps dim mv) false emb.length)
+            emb.length) ∧
+      whiteVertlineMethod rnd ⟨emb, eps, dim, mv, true⟩ = none := by
+  simp [whiteVertlineMethod, RP.R, zeroHist, gen_white_runs]
+
+theorem countIn_rowsOf (R : Mat) (n : Nat) : countIn (rowsOf R true n) = matSum R n := by
+  simp [countIn, rowsOf, matSum, List.map_map, Function.comp_def]
+
+/-- **`recurrence_rate()` counts the recurrence points of the stored matrix in every mode**: its
+numerator is `R.sum()` of the matrix mode also in sequential mode, where it is `Σ l·P_v(l)` — and
+with `missing_values`, where the repaired code (f8b6262) runs the plain sequential kernel on the
+state vectors without NaN, it is still the sum of the matrix whose incomplete rows and columns
+are cleared -/
+theorem recurrence_rate_num_all_modes (rnd : Rat → Rat) (h0 : rnd 0 = 0) (emb : List (List X))
+    (eps : X) (dim : Nat) (mv sparse : Bool) :
+    recurrenceRateNum rnd ⟨emb, eps, dim, mv, sparse⟩
+      = matSum (fixedThresholdX rnd emb eps dim mv) emb.length := by
+  cases sparse
+  · simp [recurrenceRateNum, RP.R]
+  · cases mv
+    · simp only [recurrenceRateNum, vertlineMethod, Bool.not_true, Bool.false_eq_true, if_false,
+        zeroHist]
+      rw [seqX_vertline_eq_matrix rnd h0, gen_vertline_eq, vert_accounts_black, countIn_rowsOf]
+    · simp only [recurrenceRateNum, Bool.not_true, Bool.false_eq_true, if_false, if_true, zeroHist]
+      rw [seqX_vertline_eq_matrix rnd h0, gen_vertline_eq, vert_accounts_black, countIn_rowsOf,
+        ← matSum_mv_eq_complete rnd h0]
+
+/-- hence **every scalar measure is the same in the two storage modes**: the numerators and
+denominators of DET / L / LAM / TT, the maximal lengths and the weights of the entropies are
+functions (`scalars`) of histograms that coincide -/
+theorem scalars_sparse_eq_matrix (rnd : Rat → Rat) (h0 : rnd 0 = 0) (emb : List (List X)) (eps : X)
+    (dim : Nat) (mv : Bool) (lmin : Nat) :
+    scalars lmin (diaglineMethod rnd ⟨emb, eps, dim, mv, true⟩)
+        = scalars lmin (diaglineMethod rnd ⟨emb, eps, dim, mv, false⟩) ∧
+      scalars lmin (vertlineMethod rnd ⟨emb, eps, dim, mv, true⟩)
+        = scalars lmin (vertlineMethod rnd ⟨emb, eps, dim, mv, false⟩) := by
+  rw [diagline_method_sparse_eq_matrix rnd h0, vertline_method_sparse_eq_matrix rnd h0]
+  exact ⟨rfl, rfl⟩
+
+/-- **accounting at the level of the methods**: in either storage mode `Σ l·P_v(l)` of
+`vertline_dist()` plus `Σ l·P_w(l)` of `white_vertline_dist()` (matrix mode) is `N²` — every
+recurrence point and every non-recurrence point lies on exactly one counted line -/
+theorem methods_account_all (rnd : Rat → Rat) (h0 : rnd 0 = 0) (emb : List (List X)) (eps : X)
+    (dim : Nat) (sparse : Bool) :
+    ∃ w, whiteVertlineMethod rnd ⟨emb, eps, dim, false, false⟩ = some w ∧
+      wsum (vertlineMethod rnd ⟨emb, eps, dim, false, sparse⟩) + wsum w
+        = emb.length * emb.length := by
+  refine ⟨_, rfl, ?_⟩
+  have hv : vertlineMethod rnd ⟨emb, eps, dim, false, sparse⟩
+      = vertlineMethod rnd ⟨emb, eps, dim, false, false⟩ := by
+    cases sparse
+    · rfl
+    · exact vertline_method_sparse_eq_matrix rnd h0 emb eps dim false
+  rw [hv]
+  simp only [vertlineMethod, RP.R, zeroHist, Bool.not_false, if_true, Bool.false_eq_true, if_false]
+  rw [gen_vertline_eq, gen_white_eq]
+  exact vert_white_account_all _ _
+
+/-- non-vacuity: a 5-sample series with a NaN and an infinite sample; the modes -/
+example :
+    diaglineMethod id ⟨[[.fin 0], [.nan], [.fin (1/2)], [.fin 1], [.pinf]], .fin 1, 1, false, true⟩
+      = [2, 2, 2, 0, 0] ∧
+    vertlineMethod id ⟨[[.fin 0], [.nan], [.fin (1/2)], [.fin 1], [.pinf]], .fin 1, 1, true, true⟩
+      = [1, 0, 0, 0, 0] ∧
+    recurrenceRateNum id ⟨[[.fin 0], [.nan], [.fin (1/2)], [.fin 1], [.pinf]], .fin 1, 1, true, true⟩
+      = 8 ∧
+    recurrenceRateNum id ⟨[[.fin 0], [.nan], [.fin (1/2)], [.fin 1], [.pinf]], .fin 1, 1, true, false⟩
+      = 8 := by decide +kernel
+
+/-- **the two outer loops of `_supremum_distance_matrix_rp` as written compute the closed form**
+that the model of `set_fixed_threshold` uses (`for j in range(T): for k in range(j): …
+distance[j, k] = distance[k, j] = diff` on `np.zeros`; bounds and store targets are regenerated from
+the source on every run): every entry, every size, dimension, embedding, float structure.  (Until
+round 4 the loops were only checked literally by the translator.) -/
+theorem distance_matrix_loops_eq_closed {α : Type} (O : FOps α) (n_time dim : Int)
+    (E : Int → Int → α) (a b : Int) :
+    StructC08.supremum_rp_loops O n_time dim E a b
+      = StructC08._supremum_distance_matrix_rp O n_time dim E a b :=
+  rp_loops_eq_closed O n_time dim E a b
+
+/-- hence what the loops return is symmetric with the `np.zeros` diagonal, and outside
+`[0, T) × [0, T)` nothing is ever stored -/
+theorem distance_matrix_loops_symmetric {α : Type} (O : FOps α) (n_time dim : Int)
+    (E : Int → Int → α) (a b : Int) :
+    StructC08.supremum_rp_loops O n_time dim E a b = StructC08.supremum_rp_loops O n_time dim E b a ∧
+    StructC08.supremum_rp_loops O n_time dim E a a = O.zero := by
+  rw [rp_loops_eq_closed, rp_loops_eq_closed, rp_loops_eq_closed]
+  refine ⟨dist_rp_symm O n_time dim E a b, ?_⟩
+  unfold StructC08._supremum_distance_matrix_rp
+  simp only []
+  rw [if_neg (by omega), if_neg (by omega)]
+
+example : StructC08.supremum_rp_loops (xOps id) 3 1 (accX [[.fin 0], [.fin 2], [.fin 5]]) 2 1 = .fin 3 ∧
+    StructC08.supremum_rp_loops (xOps id) 3 1 (accX [[.fin 0], [.fin 2], [.fin 5]]) 0 2 = .fin 5 ∧
+    StructC08.supremum_rp_loops (xOps id) 3 1 (accX [[.fin 0], [.fin 2], [.fin 5]]) 1 1 = .fin 0 := by
+  decide +kernel
+
+end Methods
+
+/-! ## Round 5 — overflow of a finite difference to `inf`
+
+The driver executes the generated kernels at `xOpsO rnd64` (`abs(a - b)` overflows to `+inf` from
+`2^1024` on).  Where nothing overflows this is `xOps rnd64`, about which everything above is proved;
+nothing overflows when the finite samples are at most `2^1022` in magnitude — every embedding the
+class can hold is a converted float32 array (`|x| < 2^128`). -/
+section Overflow
+open Pyunicorn.Generated
+
+/-- **without an overflowing coordinate difference the kernels with overflow are the kernels
+without**: the four sequential kernels and the distance kernel of the matrix mode -/
+theorem overflow_free_kernels (rnd : Rat → Rat) (E : Int → Int → X) (dim : Nat)
+    (h : NoOvf rnd E dim) (n : Int) (hist : List Nat) (eps : X) (M : Int → Bool) :
+    StructC08._vertline_dist_sequential (xOpsO rnd) n hist E eps dim
+        = StructC08._vertline_dist_sequential (xOps rnd) n hist E eps dim ∧
+    StructC08._diagline_dist_sequential (xOpsO rnd) n hist E eps dim
+        = StructC08._diagline_dist_sequential (xOps rnd) n hist E eps dim ∧
+    StructC08._vertline_dist_sequential_missingvalues (xOpsO rnd) n hist E eps dim M
+        = StructC08._vertline_dist_sequential_missingvalues (xOps rnd) n hist E eps dim M ∧
+    StructC08._diagline_dist_sequential_missingvalues (xOpsO rnd) n hist E eps dim M
+        = StructC08._diagline_dist_sequential_missingvalues (xOps rnd) n hist E eps dim M ∧
+    ∀ a b, StructC08._supremum_distance_matrix_rp (xOpsO rnd) n dim E a b
+        = StructC08._supremum_distance_matrix_rp (xOps rnd) n dim E a b :=
+  ⟨seqO_vertline_eq rnd E dim h n hist eps, seqO_diagline_eq rnd E dim h n hist eps,
+    seqO_vertline_mv_eq rnd E dim h n hist eps M, seqO_diagline_mv_eq rnd E dim h n hist eps M,
+    fun a b => distO_eq rnd E dim h n a b⟩
+
+/-- **bounded samples never overflow in binary64**: finite samples up to `2^1022` in magnitude
+(every float32 a fortiori; infinite and NaN samples are allowed) -/
+theorem bounded_samples_never_overflow (E : Int → Int → X) (dim : Nat)
+    (h : BoundedBy (Visibility.pow2 1022) E) : NoOvf rnd64 E dim :=
+  noOvf_of_bounded E dim h
+
+/-- the chain for what the driver executes: the sequential kernels *with overflow* at binary64
+are run-length counts of the stored matrix, for every embedding with bounded finite samples -/
+theorem seq64O_vertline_runs (emb : List (List X)) (eps : X) (dim : Nat)
+    (h : BoundedBy (Visibility.pow2 1022) (accX emb)) :
+    StructC08._vertline_dist_sequential (xOpsO rnd64) emb.length (List.replicate emb.length 0)
+        (accX emb) eps dim
+      = histOfRuns (rowsOf (fixedThresholdX rnd64 emb eps dim false) true emb.length) emb.length := by
+  rw [seqO_vertline_eq rnd64 _ dim (noOvf_of_bounded _ dim h)]
+  exact seq64_vertline_runs emb eps dim
+
+theorem seq64O_diagline_runs (emb : List (List X)) (eps : X) (dim : Nat)
+    (h : BoundedBy (Visibility.pow2 1022) (accX emb)) :
+    StructC08._diagline_dist_sequential (xOpsO rnd64) emb.length (List.replicate emb.length 0)
+        (accX emb) eps dim
+      = histOfRuns (diagsOf (fixedThresholdX rnd64 emb eps dim false) emb.length) emb.length := by
+  rw [seqO_diagline_eq rnd64 _ dim (noOvf_of_bounded _ dim h)]
+  exact seq64_diagline_runs emb eps dim
+
+private theorem seqOps_generic (O : FOps X) (hO : SymOps O) (emb : List (List X)) (eps : X)
+    (dim : Nat) (mv : Bool) (coords : List (List (Nat × Nat)))
+    (hc : ∀ cs ∈ coords, ∀ c ∈ cs, c.1 < emb.length ∧ c.2 < emb.length) (M : Int → Bool)
+    (hM : mv = true → M = accM (missingMaskX emb)) :
+    kernel mv (coords.map (·.map fun (c : Nat × Nat) =>
+        (lineVal O (fun _ _ => false)
+          (fun I j => StructC08.metric_supremum O I j dim (accX emb))
+          eps false true c.1 c.2, M c.1 || M c.2))) emb.length
+      = kernel mv (coords.map (·.map fun (c : Nat × Nat) =>
+        (lineVal vOps (accR (fixedThresholdOps O emb eps dim mv)) (fun _ _ => none) (some 0) true true
+          c.1 c.2, M c.1 || M c.2))) emb.length := by
+  apply kernel_map_congr
+  intro cs hcs c hcc
+  refine ⟨rfl, ?_⟩
+  intro hmiss
+  have hlt := hc cs hcs c hcc
+  simp only [lineVal, Bool.false_eq_true, if_false, if_true, accR, Int.toNat_natCast]
+  congr 1
+  apply nearOps_eq_matrix O hO emb eps dim mv c.1 c.2 hlt.1 hlt.2
+  intro hmv
+  have h1 := hmiss hmv
+  rw [hM hmv] at h1
+  simpa [accM] using h1
+
+/-- **sequential = matrix mode for every structure of double operations** with a commutative
+`abs(a - b)` whose self-distance is the literal `0` (`SymOps`) — in particular with overflow of a
+finite difference to `inf` (`xOpsO`).  Every embedding, threshold, size. -/
+theorem seqOps_vertline_eq_matrix (O : FOps X) (hO : SymOps O) (emb : List (List X)) (eps : X)
+    (dim : Nat) :
+    StructC08._vertline_dist_sequential O emb.length (List.replicate emb.length 0)
+        (accX emb) eps dim
+      = StructC08._vertline_dist emb.length (List.replicate emb.length 0)
+          (accR (fixedThresholdOps O emb eps dim false)) := by
+  unfold StructC08._vertline_dist_sequential StructC08._vertline_dist
+  rw [lineDist_kernel, lineDist_kernel]
+  simp only [Bool.false_eq_true, if_false]
+  rw [vert_subs emb.length (fun I j => (lineVal O (fun _ _ => false)
+        (fun I j => StructC08.metric_supremum O I j dim (accX emb)) eps false true I j,
+        (false || false))),
+    vert_subs emb.length (fun I j => (lineVal vOps (accR (fixedThresholdOps O emb eps dim false))
+        (fun _ _ => none) (some 0) true true I j, (false || false)))]
+  exact seqOps_generic O hO emb eps dim false (vertCoords emb.length) (vertCoords_lt _)
+    (fun _ => false) (by simp)
+
+theorem seqOps_diagline_eq_matrix (O : FOps X) (hO : SymOps O) (emb : List (List X)) (eps : X)
+    (dim : Nat) :
+    StructC08._diagline_dist_sequential O emb.length (List.replicate emb.length 0)
+        (accX emb) eps dim
+      = StructC08._diagline_dist emb.length (List.replicate emb.length 0)
+          (accR (fixedThresholdOps O emb eps dim false)) := by
+  unfold StructC08._diagline_dist_sequential StructC08._diagline_dist
+  rw [lineDist_kernel, lineDist_kernel]
+  simp only [if_true]
+  rw [diag_subs emb.length (fun I j => (lineVal O (fun _ _ => false)
+        (fun I j => StructC08.metric_supremum O I j dim (accX emb)) eps false true I j,
+        (false || false))),
+    diag_subs emb.length (fun I j => (lineVal vOps (accR (fixedThresholdOps O emb eps dim false))
+        (fun _ _ => none) (some 0) true true I j, (false || false)))]
+  exact seqOps_generic O hO emb eps dim false (diagCoords emb.length) (diagCoords_lt _)
+    (fun _ => false) (by simp)
+
+theorem seqOps_vertline_mv_eq_matrix (O : FOps X) (hO : SymOps O) (emb : List (List X))
+    (eps : X) (dim : Nat) :
+    StructC08._vertline_dist_sequential_missingvalues O emb.length
+        (List.replicate emb.length 0) (accX emb) eps dim (accM (missingMaskX emb))
+      = StructC08._vertline_dist_missingvalues emb.length (List.replicate emb.length 0)
+          (accR (fixedThresholdOps O emb eps dim true)) (accM (missingMaskX emb)) := by
+  unfold StructC08._vertline_dist_sequential_missingvalues StructC08._vertline_dist_missingvalues
+  rw [lineDist_kernel, lineDist_kernel]
+  simp only [Bool.false_eq_true, if_false]
+  rw [vert_subs emb.length (fun I j => (lineVal O (fun _ _ => false)
+        (fun I j => StructC08.metric_supremum O I j dim (accX emb)) eps false true I j,
+        (accM (missingMaskX emb) I || accM (missingMaskX emb) j))),
+    vert_subs emb.length (fun I j => (lineVal vOps (accR (fixedThresholdOps O emb eps dim true))
+        (fun _ _ => none) (some 0) true true I j,
+        (accM (missingMaskX emb) I || accM (missingMaskX emb) j)))]
+  exact seqOps_generic O hO emb eps dim true (vertCoords emb.length) (vertCoords_lt _)
+    (accM (missingMaskX emb)) (fun _ => rfl)
+
+theorem seqOps_diagline_mv_eq_matrix (O : FOps X) (hO : SymOps O) (emb : List (List X))
+    (eps : X) (dim : Nat) :
+    StructC08._diagline_dist_sequential_missingvalues O emb.length
+        (List.replicate emb.length 0) (accX emb) eps dim (accM (missingMaskX emb))
+      = StructC08._diagline_dist_missingvalues emb.length (List.replicate emb.length 0)
+          (accR (fixedThresholdOps O emb eps dim true)) (accM (missingMaskX emb)) := by
+  unfold StructC08._diagline_dist_sequential_missingvalues StructC08._diagline_dist_missingvalues
+  rw [lineDist_kernel, lineDist_kernel]
+  simp only [if_true]
+  rw [diag_subs emb.length (fun I j => (lineVal O (fun _ _ => false)
+        (fun I j => StructC08.metric_supremum O I j dim (accX emb)) eps false true I j,
+        (accM (missingMaskX emb) I || accM (missingMaskX emb) j))),
+    diag_subs emb.length (fun I j => (lineVal vOps (accR (fixedThresholdOps O emb eps dim true))
+        (fun _ _ => none) (some 0) true true I j,
+        (accM (missingMaskX emb) I || accM (missingMaskX emb) j)))]
+  exact seqOps_generic O hO emb eps dim true (diagCoords emb.length) (diagCoords_lt _)
+    (accM (missingMaskX emb)) (fun _ => rfl)
+
+/-- **with overflow, at binary64, no hypothesis**: the four sequential kernels the driver executes
+(`xOpsO rnd64`) are the matrix kernels on the matrix stored from the distance kernel with overflow,
+for every embedding (finite of any magnitude, `±inf`, NaN), threshold and size -/
+theorem seq64O_eq_matrix (emb : List (List X)) (eps : X) (dim : Nat) :
+    StructC08._vertline_dist_sequential (xOpsO rnd64) emb.length (List.replicate emb.length 0)
+        (accX emb) eps dim
+      = StructC08._vertline_dist emb.length (List.replicate emb.length 0)
+          (accR (fixedThresholdOps (xOpsO rnd64) emb eps dim false)) ∧
+    StructC08._diagline_dist_sequential (xOpsO rnd64) emb.length (List.replicate emb.length 0)
+        (accX emb) eps dim
+      = StructC08._diagline_dist emb.length (List.replicate emb.length 0)
+          (accR (fixedThresholdOps (xOpsO rnd64) emb eps dim false)) ∧
+    StructC08._vertline_dist_sequential_missingvalues (xOpsO rnd64) emb.length
+        (List.replicate emb.length 0) (accX emb) eps dim (accM (missingMaskX emb))
+      = StructC08._vertline_dist_missingvalues emb.length (List.replicate emb.length 0)
+          (accR (fixedThresholdOps (xOpsO rnd64) emb eps dim true)) (accM (missingMaskX emb)) ∧
+    StructC08._diagline_dist_sequential_missingvalues (xOpsO rnd64) emb.length
+        (List.replicate emb.length 0) (accX emb) eps dim (accM (missingMaskX emb))
+      = StructC08._diagline_dist_missingvalues emb.length (List.replicate emb.length 0)
+          (accR (fixedThresholdOps (xOpsO rnd64) emb eps dim true)) (accM (missingMaskX emb)) :=
+  ⟨seqOps_vertline_eq_matrix _ (symOps_xOpsO rnd64 rnd64_zero) emb eps dim,
+    seqOps_diagline_eq_matrix _ (symOps_xOpsO rnd64 rnd64_zero) emb eps dim,
+    seqOps_vertline_mv_eq_matrix _ (symOps_xOpsO rnd64 rnd64_zero) emb eps dim,
+    seqOps_diagline_mv_eq_matrix _ (symOps_xOpsO rnd64 rnd64_zero) emb eps dim⟩
+
+/-- **rounding and overflow together never invent a recurrence**: on every embedding (finite
+samples of any magnitude, `±inf`, NaN) and for every double / `inf` / NaN threshold, a pair that the
+compiled arithmetic (binary64 with overflow) calls recurrent is recurrent in exact arithmetic -/
+theorem binary64_overflow_subset_exact (I j dim : Int) (E : Int → Int → X) (eps : X)
+    (heps : ∀ t, eps = .fin t → IsF64 t)
+    (h : (xOpsO rnd64).lt (StructC08.metric_supremum (xOpsO rnd64) I j dim E) eps = true) :
+    (xOps id).lt (StructC08.metric_supremum (xOps id) I j dim E) eps = true :=
+  lt_of_accRelO rnd64 _ _ (metric_accRelO rnd64 rnd64_mono I j dim E) eps
+    (fixedEps_rnd64 eps heps) h
+
+/-- the overflow is real and matters only for `threshold = inf`: `±1.5·2^1023` are doubles, their
+difference `3·2^1023 ≥ 2^1024` is `+inf`; the pair is not recurrent even for an infinite threshold,
+while the model without overflow would accept it -/
+example : X.absdiffO rnd64 (.fin (3 * 2 ^ 1022)) (.fin (-(3 * 2 ^ 1022))) = .pinf ∧
+    X.absdiff rnd64 (.fin (3 * 2 ^ 1022)) (.fin (-(3 * 2 ^ 1022))) = .fin (3 * 2 ^ 1023) ∧
+    (xOpsO rnd64).lt (StructC08.metric_supremum (xOpsO rnd64) 0 1 1
+      (fun a _ => .fin (if a = 0 then 3 * 2 ^ 1022 else -(3 * 2 ^ 1022)))) .pinf = false ∧
+    (xOps rnd64).lt (StructC08.metric_supremum (xOps rnd64) 0 1 1
+      (fun a _ => .fin (if a = 0 then 3 * 2 ^ 1022 else -(3 * 2 ^ 1022)))) .pinf = true := by
+  decide +kernel
+
+end Overflow
 
 /-! ## Round 4 — `RecurrencePlot.diagline_dist()` as a whole (Python layer included) -/
 section PyLayer
